@@ -195,6 +195,7 @@ def clap_args(body):
                 ident = d["args"][0][1].strip('"')
         long = act = None
         delim = None
+        parser = None
         rel = []
         cur = t
         for _ in range(60):
@@ -232,10 +233,25 @@ def clap_args(body):
                             else:
                                 tgt = "?"
                     rel.append((kind, tgt))
+            if nc.endswith("Arg::value_parser") and len(cur["args"]) > 1:
+                # a hand-written parser function (`value_parser = parse_x`): handed over as a fn item, possibly through an Into/From call
+                a1 = cur["args"][1]
+                cand = [a1] if a1[0] == "f" else []
+                if not cand and op_local(a1) is not None:
+                    d = defs.get(src(op_local(a1)))
+                    for _hop in range(3):
+                        if d is None:
+                            break
+                        cand = [a for a in d["args"] if a and a[0] == "f"]
+                        if cand or not d["args"] or op_local(d["args"][0]) is None:
+                            break
+                        d = defs.get(src(op_local(d["args"][0])))
+                if cand:
+                    parser = cand[0][1]
             if nc.endswith("Arg::action"):
                 al = src(op_local(cur["args"][1])) if op_local(cur["args"][1]) is not None else None
                 if al in aggs:
                     act = aggs[al]["variant"]
         if long:
-            out[long] = {"id": ident, "action": act, "delimiter": delim, "relations": rel}
+            out[long] = {"id": ident, "action": act, "delimiter": delim, "relations": rel, "parser": parser}
     return out
